@@ -280,3 +280,226 @@ def _replay_acc(prop, f):
 
 
 replay_C15 = replay_C16 = replay_C17 = _replay_acc
+
+
+# ------------------------------------------------------------------ C04 carried content
+def canon(e, top=True):
+    return (e.tag, tuple(sorted(e.attrib.items())), e.text, None if top else e.tail, tuple(canon(c, False) for c in e))
+
+
+RICH = ('<mosExternalMetadata a="1" b="x&amp;y"><mosSchema>s</mosSchema><mosPayload><k n="2">v &lt;1&gt; &amp; "q"</k>tail<deep><d1><d2 z="9">é☃</d2></d1></deep>'
+        '<StoryDuration>12</StoryDuration></mosPayload></mosExternalMetadata>')
+
+
+def rich_story(sid, tag='story'):
+    return ('<%s x="1"><storyID>%s</storyID><storySlug>s &amp; %s</storySlug><p>one</p><item y="2"><itemID>i1</itemID><objID>o</objID>'
+            '<mosExternalMetadata><mosPayload><n>1</n></mosPayload></mosExternalMetadata></item><p/>mixed<item><itemID>i2</itemID></item>%s</%s>'
+            % (tag, sid, sid, RICH, tag))
+
+
+def rich_item(iid):
+    return '<item k="v"><itemID>%s</itemID><itemSlug>a&lt;b</itemSlug><objPaths><objPath techDescription="x">p</objPath></objPaths>tail text</item>' % iid
+
+
+def c04_cases():
+    R = '<roID>RO1</roID>'
+    base = dict(stories=['A', 'B', 'C'], meta_layout='all', items={'A': ['1', '2']})
+    for n in (1, 2, 3):
+        new = ['N%d' % i for i in range(n)]
+        ss = ''.join(rich_story(s) for s in new)
+        yield 'StoryAppend', base, ENV % (5, '<roStoryAppend>%s%s</roStoryAppend>' % (R, ss)), ('stories', new)
+        yield 'StoryInsert', base, ENV % (5, '<roStoryInsert>%s<storyID>B</storyID>%s</roStoryInsert>' % (R, ss)), ('stories', new)
+        yield 'StoryReplace', base, ENV % (5, '<roStoryReplace>%s<storyID>B</storyID>%s</roStoryReplace>' % (R, ss)), ('stories', new)
+        for op in ('INSERT', 'REPLACE'):
+            yield 'EAStory' + op, base, ENV % (5, '<roElementAction operation="%s">%s<element_target><storyID>B</storyID></element_target>'
+                                               '<element_source>%s</element_source></roElementAction>' % (op, R, ss)), ('stories', new)
+        its = ['n%d' % i for i in range(n)]
+        ii = ''.join(rich_item(i) for i in its)
+        yield 'ItemInsert', base, ENV % (5, '<roItemInsert>%s<storyID>A</storyID><itemID>2</itemID>%s</roItemInsert>' % (R, ii)), ('items', 'A', its)
+        yield 'ItemReplace', base, ENV % (5, '<roItemReplace>%s<storyID>A</storyID><itemID>2</itemID>%s</roItemReplace>' % (R, ii)), ('items', 'A', its)
+        for op in ('INSERT', 'REPLACE'):
+            yield 'EAItem' + op, base, ENV % (5, '<roElementAction operation="%s">%s<element_target><storyID>A</storyID><itemID>1</itemID></element_target>'
+                                              '<element_source>%s</element_source></roElementAction>' % (op, R, ii)), ('items', 'A', its)
+    # roStorySend: storyBody anywhere among the children
+    body = '<storyBody>lead<p>a</p><storyItem q="1"><itemID>s1</itemID><storyItem><itemID>nested</itemID></storyItem></storyItem>t1<p>(n)</p><storyItem><itemID>s2</itemID></storyItem></storyBody>'
+    for layout in ('%(id)s%(slug)s%(body)s%(md)s', '%(id)s%(body)s%(slug)s%(md)s', '%(body)s%(id)s%(slug)s%(md)s', '%(id)s%(slug)s%(md)s%(body)s'):
+        inner = layout % dict(id='<storyID>B</storyID>', slug='<storySlug>re</storySlug>', body=body, md=RICH)
+        yield 'StorySend', base, ENV % (5, '<roStorySend>%s%s</roStorySend>' % (R, inner)), ('send', 'B')
+    yield 'RunningOrderReplace', base, ENV % (5, '<roReplace>%s<roSlug>new</roSlug>%s%s</roReplace>' % (R, rich_story('X'), rich_story('Y'))), ('replace',)
+    for mdbody in ('<roSlug>z &amp; z</roSlug>', '<roChannel a="1">c</roChannel><roSlug>z</roSlug>', RICH,
+                   '<mosExternalMetadata><mosSchema>http://x/ro</mosSchema><mosPayload><a>2</a></mosPayload></mosExternalMetadata>'):
+        yield 'MetaDataReplace', base, ENV % (5, '<roMetadataReplace>%s%s</roMetadataReplace>' % (R, mdbody)), ('meta',)
+
+
+def check_c04(kind, ro_spec, mx, what):
+    from scenarios import ro_xml
+    ro = RunningOrder.from_string(ro_xml(**ro_spec))
+    m = MosFile.from_string(mx)
+    mroot = ET.fromstring(mx)
+    mb = [c for c in mroot if c.tag.startswith('ro')][0]
+    with warnings.catch_warnings():
+        warnings.simplefilter('ignore')
+        ro += m
+    base = ro.xml.find('roCreate')
+    viol = []
+    if what[0] == 'stories':
+        src = mb.find('element_source') if mb.find('element_source') is not None else mb
+        sent = {s.find('storyID').text: s for s in src.findall('story')}
+        for sid in what[1]:
+            got = [s for s in base.findall('story') if s.find('storyID').text == sid]
+            if len(got) != 1 or canon(got[0]) != canon(sent[sid]):
+                viol.append('carried story %s did not arrive with the content that was sent' % sid)
+    elif what[0] == 'items':
+        src = mb.find('element_source') if mb.find('element_source') is not None else mb
+        sent = {s.find('itemID').text: s for s in src.findall('item')}
+        st_ = [s for s in base.findall('story') if s.find('storyID').text == what[1]][0]
+        for iid in what[2]:
+            got = [i for i in st_.findall('item') if i.find('itemID').text == iid]
+            if len(got) != 1 or canon(got[0]) != canon(sent[iid]):
+                viol.append('carried item %s did not arrive with the content that was sent' % iid)
+    elif what[0] == 'send':
+        got = [s for s in base.findall('story') if s.find('storyID').text == what[1]][0]
+        exp = []
+        for c in mb:
+            if c.tag == 'storyBody':
+                for b in c:
+                    cb = list(canon(b, False))
+                    if b.tag == 'storyItem':
+                        cb[0] = 'item'
+                    exp.append(tuple(cb))
+            else:
+                exp.append(canon(c, False))
+        if got.tag != 'story' or [canon(c, False) for c in got] != exp:
+            viol.append('re-sent story is not the sent story with the storyBody children spliced in place')
+    elif what[0] == 'replace':
+        exp = list(canon(mb))
+        exp[0] = 'roCreate'
+        if canon(base) != tuple(exp):
+            viol.append('running order content after roReplace differs from the sent one')
+    elif what[0] == 'meta':
+        for c in mb:
+            if not any(canon(x) == canon(c) for x in base):
+                viol.append('carried metadata element <%s> is not present with the sent content' % c.tag)
+    return viol
+
+
+def search_C04(tier, rng):
+    n = 0
+    failures = []
+    for kind, ro_spec, mx, what in c04_cases():
+        n += 1
+        try:
+            viol = check_c04(kind, ro_spec, mx, what)
+        except Exception as e:
+            viol = ['harness: %s %s' % (type(e).__name__, e)]
+        for w in viol:
+            if len(failures) < 10:
+                failures.append({'property': 'C04', 'fn': 'mosromgr.mostypes.%s.merge' % kind, 'kind': kind, 'ro_spec': ro_spec, 'msg': mx, 'expect': list(what),
+                                 'what': '%s: %s' % (kind, w), 'input_sha': _sha(mx), 'api': 'ro += MosFile.from_string(msg)'})
+    return {'evaluations': n, 'distinct': n, 'failures': failures,
+            'rule': 'every carrying message type with 1..3 carried elements with nested metadata, attributes, mixed text/tails, markup-significant and non-ASCII '
+                    'characters; roStorySend with storyBody at 4 positions and a nested storyItem; roReplace; roMetadataReplace; oracle = structural comparison with the message text',
+            'summary': {'short': '%d payload merges compared structurally, %d failing' % (n, len(failures)), 'bounded': True}, 'assumptions': []}
+
+
+def replay_C04(prop, f):
+    return bool(check_c04(f['kind'], f['ro_spec'], f['msg'], tuple(f['expect'])))
+
+
+# ------------------------------------------------------------------ C14 serialise / read back over reachable states
+SPECIAL = ['plain', 'a &amp; b &lt;c&gt; "q" \'s\'', 'é☃ 𝄞 non-BMP', '  spaces  ', 'line1&#10;line2', 'cr&#13;here', 'tab&#9;x', ']]&gt; cdata-end', '']
+
+
+def c14_histories(tier, rng):
+    from scenarios import ro_xml
+    kinds = [('StoryAppend', dict(new=['N1'])), ('StoryInsert', dict(target='B', new=['N2'])), ('StoryReplace', dict(target='B', new=['R1'])),
+             ('StoryDelete', dict(ids=['C'])), ('StoryMove', dict(src='A', target=None)), ('StorySend', dict(target='A')),
+             ('ItemInsert', dict(story='A', target='1', new=['n1'])), ('ItemDelete', dict(story='A', ids=['2'])),
+             ('EAStorySwap', dict(ids=['A', 'B'])), ('EAItemMove', dict(story='A', target=None, ids=['1'])),
+             ('MetaDataReplace', dict(body='<roSlug>%s</roSlug>')), ('RunningOrderReplace', dict(new=['A', 'B', 'C'])),
+             ('ReadyToAir', {}), ('RunningOrderEnd', {})]
+    nseq = 60 if tier == 'quick' else 400
+    for i in range(nseq):
+        L_ = rng.randint(0, 6)
+        seq = [rng.choice(kinds) for _ in range(L_)]
+        sp = rng.choice(SPECIAL)
+        yield sp, seq
+
+
+def check_c14(sp, seq):
+    from scenarios import ro_xml
+    doc = ro_xml(['A', 'B', 'C'], items={'A': ['1', '2', '3']}, meta_layout='all').replace('the slug', sp)
+    ro = RunningOrder.from_string(doc)
+    mid0, roid0 = ro.message_id, ro.ro_id
+    viol = []
+    states = 0
+    for kind, a in [(None, None)] + list(seq):
+        if kind is not None:
+            a = dict(a)
+            if kind == 'MetaDataReplace':
+                a['body'] = a['body'] % sp
+            try:
+                with warnings.catch_warnings():
+                    warnings.simplefilter('ignore')
+                    ro += MosFile.from_string(msg(kind, **a)[0])
+            except Exception:
+                pass
+        states += 1
+        s1 = str(ro)
+        try:
+            back = MosFile.from_string(s1)
+        except Exception as e:
+            viol.append('serialised running order is not readable: %s' % type(e).__name__)
+            continue
+        if type(back).__name__ != 'RunningOrder' or str(back) != s1:
+            viol.append('running order after %s does not read back to the same serialisation' % (kind or 'parse'))
+        elif back.completed != ro.completed or [s.id for s in back.stories] != [s.id for s in ro.stories] or \
+                [[i.id for i in s.items] for s in back.stories] != [[i.id for i in s.items] for s in ro.stories]:
+            viol.append('read-back running order differs in stories / items / completed flag')
+        root = ro.xml
+        if len(root.findall('roCreate')) != 1 or len(root.findall('mosromgrmeta')) > 1 or ro.message_id != mid0 or ro.ro_id != roid0:
+            viol.append('envelope changed: roCreate x%d, mosromgrmeta x%d, messageID %s, roID %s' % (
+                len(root.findall('roCreate')), len(root.findall('mosromgrmeta')), ro.message_id, ro.ro_id))
+    return viol, states
+
+
+def search_C14(tier, rng):
+    n = 0
+    failures = []
+    for sp, seq in c14_histories(tier, rng):
+        viol, states = check_c14(sp, seq)
+        n += states
+        for w in viol[:1]:
+            if len(failures) < 8:
+                failures.append({'property': 'C14', 'fn': 'mosromgr.mostypes.MosFile.__str__', 'special_text': sp, 'history': [[k, a] for k, a in seq],
+                                 'what': '%s (text %r, history %s)' % (w, sp, [k for k, _ in seq]), 'input_sha': _sha(json.dumps([sp, [k for k, _ in seq]])),
+                                 'region': 'text_contains_CR' if '&#13;' in sp and 'read back' in w else None,
+                                 'api': 'str(ro) / MosFile.from_string(str(ro)) after each merge of the history'})
+    # conformance of the assumed round trip (A-ET-RT) on seeded random trees
+    n2, bad = 0, 0
+    for i in range(200 if tier == 'quick' else 2000):
+        depth = rng.randint(1, 4)
+
+        def mk(d):
+            e = ET.Element(rng.choice(['a', 'b', 'story', 'x1']), {k: rng.choice(['v', 'é', 'a&b', '<', '"', '1\r2']) for k in rng.sample(['p', 'q', 'r'], rng.randint(0, 2))})
+            e.text = rng.choice([None, 't', ' x ', 'é☃', '&<>"', 'a\rb', 'l1\nl2', '\t'])
+            for _ in range(rng.randint(0, 3) if d > 0 else 0):
+                c = mk(d - 1)
+                c.tail = rng.choice([None, 'tail', '\r', ' '])
+                e.append(c)
+            return e
+        t = mk(depth)
+        s = ET.tostring(t, encoding='unicode').replace('\r', '&#13;')
+        n2 += 1
+        if ET.tostring(ET.fromstring(s), encoding='unicode').replace('\r', '&#13;') != s:
+            bad += 1
+    return {'evaluations': n + n2, 'distinct': n, 'failures': failures,
+            'rule': 'seeded random merge histories (0..6 messages of 14 kinds) from a running order whose slug holds one of 9 special texts (markup, non-BMP, CR, LF, tab); '
+                    'after every step: str / read back / compare; plus %d seeded random trees through the assumed round trip A-ET-RT (%d disagreements)' % (n2, bad),
+            'summary': {'short': '%d reachable states read back, %d failing; A-ET-RT conformance %d trees, %d disagree' % (n, len(failures), n2, bad), 'bounded': True},
+            'assumptions': ['A-ET-RT conformance-tested on %d seeded random trees: %d disagreements' % (n2, bad)]}
+
+
+def replay_C14(prop, f):
+    viol, _ = check_c14(f['special_text'], [(k, a) for k, a in f['history']])
+    return bool(viol)
